@@ -118,6 +118,14 @@ class Gen(object):
                             c.add(El("state", {"id": self.new_id("s")}))
                     else:
                         reg.add(El("state", {"id": self.new_id("s")}))
+                if self.f["finals"] and r.random() < 0.35:
+                    # regions that can finish: done.state of the region, and of the (possibly nested) parallel once all have
+                    reg.add(El("final", {"id": self.new_id("f")}))
+                    for q in [c for c in reg.children if c.tag == "parallel"]:
+                        for qr in q.children:
+                            if r.random() < 0.7:
+                                qr.add(El("state", {"id": self.new_id("s")}))
+                                qr.add(El("final", {"id": self.new_id("f")}))
                 if self.f["history"] and r.random() < 0.2:
                     reg.add(El("history", {"id": self.new_id("h"), "type": r.choice(["shallow", "deep"])}))
             if r.random() < 0.5:
@@ -198,6 +206,15 @@ class Gen(object):
                 t = El("transition", {"event": r.choice(["a", "b", "a b", "*"]), "target": r.choice(outside).attrs["id"]})
                 e.children.insert(0, t)
                 t.parent = e
+        # where a state's transitions stand among its children is free: in front of the child states, document order and
+        # post-fix order of the transitions differ
+        for s in states:
+            kids = [c for c in s.children if c.tag in ("state", "parallel", "final")]
+            trs = [c for c in s.children if c.tag == "transition"]
+            if kids and trs and r.random() < 0.3:
+                rest = [c for c in s.children if c.tag != "transition"]
+                first_kid = min(rest.index(k) for k in kids)
+                s.children[:] = rest[:first_kid] + trs + rest[first_kid:]
         # onentry / onexit
         for s in [e for e in root.walk() if e.tag in ("state", "parallel", "final")]:
             for _ in range(r.choice([0, 0, 1, 1, 2])):
